@@ -9,11 +9,11 @@ HG_UNITS = ["src/drivers/ncmpio/ncmpio_var.c", "src/drivers/ncmpio/ncmpio_attr.m
 
 def dec_jobs(tier, prefix="C04.a", valid_only=True):
     out = []
-    chunks = [8, 12] if tier == "quick" else [8, 12, 16, 36]
+    chunks = [8, 12] if tier == "quick" else [8, 12, 16]
     decs = [("DEC_UINT", "uint", [])]
-    for nl in ([1, 5] if tier == "quick" else [0, 1, 2, 3, 4, 5, 8, 9]):
+    for nl in ([1, 5] if tier == "quick" else [0, 1, 4, 5, 9]):
         decs.append(("DEC_NAME", "name%d" % nl, ["-DNMAX=9", "-DNLEN=%d" % nl]))
-    for nl, nd in ([(1, 2), (4, 1)] if tier == "quick" else [(1, 2), (4, 1), (0, 0), (3, 2), (2, 0)]):
+    for nl, nd in ([(1, 2), (4, 1)] if tier == "quick" else [(1, 2), (4, 1), (0, 0), (3, 2)]):
         decs.append(("DEC_VAR", "var.n%d.d%d" % (nl, nd), ["-DNLEN=%d" % nl, "-DNDIMS=%d" % nd] + (["-DVALID_ONLY"] if valid_only else [])))
     for ver in (1, 2, 5):
         for ch in chunks:
